@@ -143,3 +143,34 @@ def repo_fingerprint():
             with open(p, 'rb') as f:
                 h.update(f.read())
     return h.hexdigest()[:16]
+
+
+def ensure_fresh():
+    """cargo decides freshness of a path dependency by mtime: a /repo file restored with an *older* mtime (cp -a, rsync,
+    tar) would leave stale artefacts of the previous tree in use.  The content hash of /repo's sources is therefore kept
+    in WORK/repo.stamp; when it differs, the cargo fingerprints of everything built from /repo are removed in every
+    target directory under WORK, which forces those crates (and their dependents) to be rebuilt from the current tree."""
+    import glob
+    import shutil
+    fp = repo_fingerprint()
+    stamp = os.path.join(WORK, 'repo.stamp')
+    old = None
+    if os.path.exists(stamp):
+        with open(stamp) as f:
+            old = f.read().strip()
+    if old == fp:
+        return False
+    n = 0
+    for dp, dn, _ in os.walk(WORK):
+        if os.path.basename(dp) == '.fingerprint':
+            for d in list(dn):
+                if d.startswith(('logos-', 'logos_', 'corpus-', 'replay-', 'bumpreplay-', 'c18rep-', 'verdict-')):
+                    shutil.rmtree(os.path.join(dp, d), ignore_errors=True)
+                    n += 1
+            dn[:] = []
+        elif os.path.basename(dp) in ('deps', 'incremental', 'build', 'src', 'examples'):
+            dn[:] = []
+    os.makedirs(WORK, exist_ok=True)
+    with open(stamp, 'w') as f:
+        f.write(fp)
+    return n
